@@ -31,6 +31,7 @@ def parseAct (tok : String) : Act :=
       | "E", [e] => .errno e
       | "R", [s] => if validSig s then .raise s else .nop
       | "X", [p, s] => if validPid p then .exit p s else .nop
+      | "K", [] => .stop
       | _, _ => .nop
   | [] => .nop
 
@@ -63,6 +64,7 @@ def parseOp (ts : List String) : Op :=
       | "exit", [p, s] => if validPid p then .act (.exit p s) else .bad
       | "tick", [] => .tick
       | "tickhang", [] => .tickhang
+      | "run", [] => .run
       | "destroy", [] => .destroy
       | _, _ => .bad
   | [] => .bad
@@ -85,6 +87,7 @@ def showEv : Ev → String
   | .skip k => s!"skip:{k}"
   | .dup k => s!"dup:{k}"
   | .a => "a"
+  | .hstop => "hstop"
 
 def showSet (l : List Int) : String :=
   let m := SIGS.filter l.contains
@@ -144,7 +147,8 @@ structure DSt where
 def cfgOfSource : Config :=
   { ioFlagMask := Gen.EvLoop.ioFlagMask, timersPop := Gen.EvLoop.timersPop, errnoSaved := Gen.EvLoop.errnoSaved,
     pendingInit := Gen.EvLoop.pendingInit, reventsCleared := Gen.EvLoop.reventsCleared,
-    invokeTypeSaved := Gen.EvLoop.invokeTypeSaved }
+    invokeTypeSaved := Gen.EvLoop.invokeTypeSaved, sigSnapshot := Gen.EvLoop.sigSnapshot,
+    procSnapshot := Gen.EvLoop.procSnapshot }
 
 def step (d : DSt) (ts : List String) (impl : String) : DSt × String × String :=
   let op := parseOp ts
